@@ -30,3 +30,27 @@ Print Assumptions record_to_value_order.
 Theorem unnamed_fields_give_tuples : forall cols i v, row None cols i = Ok v -> exists vs, v = VTup vs.
 Proof. exact unnamed_records_are_tuples. Qed.
 Print Assumptions unnamed_fields_give_tuples.
+
+(* ---- refinement of field projection: [field_content] (item IField of getitem, the field operation) computes
+        exactly [proj_ty] / [proj_v] -- for EVERY valid layout (unions, strings, n-d leaves included), through
+        every wrapper node, positional fall-back of [field_pos] included; values and error status ---- *)
+From AwkV Require Import Valid Types Carry AtAxis Proofs_AtAxis Proofs_Field.
+
+Theorem field_refines_spec : forall k c vs,
+  Valid None c -> to_list c = Ok vs ->
+  obs (field_content k c) = (do _ <- proj_ty k (type_of c); mapM (proj_v k (type_of c)) vs).
+Proof. exact Proofs_Field.field_refines_spec. Qed.
+Print Assumptions field_refines_spec.
+
+(* the only failure is "no such field": never an out-of-bounds access, never fuel *)
+Theorem field_fails_only_for_missing_field : forall k c vs e,
+  Valid None c -> to_list c = Ok vs -> field_content k c = Err e -> e = EValue /\ proj_ty k (type_of c) = Err EValue.
+Proof. exact field_error_is_value_error. Qed.
+Print Assumptions field_fails_only_for_missing_field.
+
+(* where the projected type exists, the projection of the array's own values never fails *)
+Theorem field_succeeds_when_typed : forall k c vs t',
+  Valid None c -> to_list c = Ok vs -> proj_ty k (type_of c) = Ok t' ->
+  exists c' ws, field_content k c = Ok c' /\ to_list c' = Ok ws /\ mapM (proj_v k (type_of c)) vs = Ok ws.
+Proof. exact field_ok_when_typed. Qed.
+Print Assumptions field_succeeds_when_typed.
